@@ -1,18 +1,26 @@
 /-
-  C08 helper lemmas, part 5: the invariant of every history of `add_cds_feature` / `add_<area>` calls.
+  C08 helper lemmas, part 5: the invariant of every history of calls on a record
+  (`add_cds_feature`, `add_<area>`, `clear_*`, the observing calls).
 -/
-import ASV.Proofs.LookupRec
+import ASV.Proofs.LookupTree
 namespace ASV.Lookup
 open ASV
 
-/-- gene `g` reaches collection `d`: some collection among `areas` contains `g` and passes it down to `d`
-    (`d` is that collection itself or a descendant all of whose ancestors below it contain `g`) -/
-def Linked (areas : List AreaT) (g : Gene) (d : AreaT) : Prop :=
-  ∃ a ∈ areas, containedBy g.loc a.loc = true ∧ d ∈ downNodes g a
+/-- gene `g` reaches collection `d`, which files it under section `s`: some collection among `areas` contains
+    `g` and passes it down to `d` (`d` is that collection itself or a descendant all of whose ancestors below
+    it contain `g`) -/
+def LinkedS (areas : List AreaT) (g : Gene) (d : AreaT) (s : Section) : Prop :=
+  ∃ a ∈ areas, containedBy g.loc a.loc = true ∧ (d, s) ∈ downNodes g none a
 
-theorem Linked.congr {l₁ l₂ : List AreaT} (h : ∀ a, a ∈ l₁ ↔ a ∈ l₂) (g : Gene) (d : AreaT) :
-    Linked l₁ g d ↔ Linked l₂ g d := by
-  simp only [Linked, h]
+def Linked (areas : List AreaT) (g : Gene) (d : AreaT) : Prop := ∃ s, LinkedS areas g d s
+
+theorem LinkedS.mono {l₁ l₂ : List AreaT} (h : ∀ a ∈ l₁, a ∈ l₂) {g : Gene} {d : AreaT} {s : Section}
+    (hl : LinkedS l₁ g d s) : LinkedS l₂ g d s := by
+  obtain ⟨a, ha, hc, hd⟩ := hl; exact ⟨a, h a ha, hc, hd⟩
+
+theorem Linked.mono {l₁ l₂ : List AreaT} (h : ∀ a ∈ l₁, a ∈ l₂) {g : Gene} {d : AreaT}
+    (hl : Linked l₁ g d) : Linked l₂ g d := by
+  obtain ⟨s, hs⟩ := hl; exact ⟨s, hs.mono h⟩
 
 /-! ### inserting a gene keeps the list sorted -/
 
@@ -66,30 +74,6 @@ theorem mem_insert {fs : List Gene} (p : Gene → Bool) (g x : Gene) :
     · exact Or.inr (Or.inr h)
     · exact Or.inr (Or.inl h)
 
-/-! ### the invariant -/
-
-/-- what holds after every successful history; `seen` is the list of calls made so far -/
-structure Inv (seen : List Op) (r : Rec) : Prop where
-  genesSeen : ∀ g, g ∈ r.genes ↔ Op.cds g ∈ seen
-  areasSeen : ∀ a, a ∈ registered r ↔ Op.area a ∈ seen
-  regionsSeen : ∀ a, a ∈ r.regions ↔ (Op.area a ∈ seen ∧ a.kind = .region)
-  sorted : Sorted r.genes
-  ok : GenesOK r.genes
-  ids : r.genes.Pairwise fun a b => a.id ≠ b.id
-  areasOK : ∀ a ∈ registered r, QueryOK a.loc
-  disjoint : r.regions.Pairwise fun x y => overlapsWith y.loc x.loc = false
-  members : ∀ x, x ∈ r.members ↔ ∃ g ∈ r.genes, ∃ d, Linked (registered r) g d ∧ x = (d.id, g.id)
-  defs : ∀ x, x ∈ r.defs ↔ ∃ g ∈ r.genes, ∃ d, Linked (registered r) g d ∧ defines g d = true ∧ x = (d.id, g.id)
-  regionOf : ∀ x, x ∈ r.regionOf ↔ ∃ g ∈ r.genes, ∃ d, Linked (registered r) g d ∧ d.kind = .region ∧ x = (g.id, d.id)
-
-/-- the inputs a call must have: a well-formed gene location, a well-formed area location -/
-def OpOK : Op → Prop
-  | .cds g => LocOK g.loc
-  | .area a => QueryOK a.loc
-
-theorem Inv.init (len : Int) : Inv [] { len := len } := by
-  constructor <;> simp [registered, Sorted, GenesOK, Linked]
-
 theorem pairwise_insert {fs : List Gene} (p : Gene → Bool) (g : Gene) (h : fs.Pairwise fun a b => a.id ≠ b.id)
     (hg : ∀ f ∈ fs, f.id ≠ g.id) :
     (fs.takeWhile p ++ g :: fs.dropWhile p).Pairwise fun a b => a.id ≠ b.id := by
@@ -110,264 +94,120 @@ theorem pairwise_insert {fs : List Gene} (p : Gene → Bool) (g : Gene) (h : fs.
 def ins (fs : List Gene) (g : Gene) : List Gene :=
   fs.takeWhile (fun f => !locLt g.loc f.loc) ++ g :: fs.dropWhile (fun f => !locLt g.loc f.loc)
 
-theorem addCds_ok {r r' : Rec} {g : Gene} (h : addCds r g = .ok r') :
-    (∀ f ∈ r.genes, f.id ≠ g.id) ∧ r' = linkCdsToParent { r with genes := ins r.genes g } g := by
-  unfold Lookup.addCds at h
-  cases h1 : keyExists g.loc with
-  | false => simp [h1, throw, throwThe, MonadExceptOf.throw] at h
-  | true =>
-    simp only [h1, Bool.not_true, Bool.false_eq_true, if_false] at h
-    cases h2 : (r.genes.any fun f => f.loc == g.loc) with
-    | true => simp [h2, throw, throwThe, MonadExceptOf.throw] at h
-    | false =>
-      simp only [h2, Bool.false_eq_true, if_false] at h
-      cases h3 : (r.genes.any fun f => f.id == g.id) with
-      | true => simp [h3, throw, throwThe, MonadExceptOf.throw] at h
-      | false =>
-        simp only [h3, Bool.false_eq_true, if_false, pure, Except.pure] at h
-        injection h with h
-        refine ⟨?_, h.symm⟩
-        intro f hf e
-        have : (r.genes.any fun f => f.id == g.id) = true := by
-          rw [List.any_eq_true]
-          exact ⟨f, hf, by simp [e]⟩
-        rw [h3] at this
-        exact absurd this (by simp)
+/-! ### the newest-first list of `cds.region = …` assignments -/
 
-theorem Inv.addCds {seen : List Op} {r r' : Rec} (h : Inv seen r) (g : Gene) (hg : LocOK g.loc)
-    (hstep : addCds r g = .ok r') : Inv (seen ++ [.cds g]) r' := by
-  obtain ⟨hidne, hr'⟩ := addCds_ok hstep
-  have hstep : linkCdsToParent { r with genes := ins r.genes g } g = r' := hr'.symm
-  clear hr'
-  have eff := linkCdsToParent_eff { r with genes := ins r.genes g } g
-  rw [hstep] at eff
-  have hreg : registered r' = registered r := by
-    simp only [registered, eff.regions, eff.protos, eff.cands, eff.subs]
-  have hgenes : ∀ x, x ∈ r'.genes ↔ x ∈ r.genes ∨ x = g := by
-    intro x; rw [eff.genes]; exact mem_insert (fun f => !locLt g.loc f.loc) g x
-  have hlink : ∀ d, d ∈ downAll g (registered r) ↔ Linked (registered r) g d := fun d => mem_downAll g _ d
+/-- the value the newest assignment for `gid` gives -/
+def ptr (l : List (Nat × Option Nat)) (gid : Nat) : Option Nat := ((l.find? fun x => x.1 == gid).map (·.2)).join
+
+theorem regionOfGene_eq (r : Rec) (gid : Nat) : r.regionOfGene gid = ptr r.regionOf gid := rfl
+
+theorem ptr_skip {pre old : List (Nat × Option Nat)} {gid : Nat} (h : ∀ x ∈ pre, x.1 ≠ gid) :
+    ptr (pre ++ old) gid = ptr old gid := by
+  induction pre with
+  | nil => rfl
+  | cons x pre ih =>
+    have hx : (x.1 == gid) = false := by simpa using h x (by simp)
+    simp only [ptr, List.cons_append, List.find?_cons, hx] at ih ⊢
+    exact ih (fun y hy => h y (by simp [hy]))
+
+theorem ptr_hit {pre old : List (Nat × Option Nat)} {gid : Nat} {v : Option Nat}
+    (hex : ∃ x ∈ pre, x.1 = gid) (hall : ∀ x ∈ pre, x.1 = gid → x.2 = v) : ptr (pre ++ old) gid = v := by
+  induction pre with
+  | nil => obtain ⟨x, hx, _⟩ := hex; simp at hx
+  | cons x pre ih =>
+    by_cases hx : x.1 = gid
+    · have : (x.1 == gid) = true := by simpa using hx
+      simp only [ptr, List.cons_append, List.find?_cons, this, Option.map_some, Option.join_some]
+      exact hall x (by simp) hx
+    · have hx' : (x.1 == gid) = false := by simpa using hx
+      simp only [ptr, List.cons_append, List.find?_cons, hx'] at ih ⊢
+      apply ih
+      · obtain ⟨y, hy, e⟩ := hex
+        rcases List.mem_cons.1 hy with rfl | hy'
+        · exact absurd e hx
+        · exact ⟨y, hy', e⟩
+      · exact fun y hy => hall y (by simp [hy])
+
+/-! ### the invariant -/
+
+/-- what an area handed to the record must satisfy: a well-formed location, and regions only at the top -/
+def AreaOK (a : AreaT) : Prop := QueryOK a.loc ∧ ∀ d ∈ nodes a, d.kind = .region → d = a
+
+/-- the part of the invariant that does not involve caches or the log.  `L` is what the spec says is alive
+    (`liveAfter` of the calls so far), `ever` every collection handed to the record so far. -/
+structure InvCore (L : Live) (ever : List AreaT) (r : Rec) : Prop where
+  genesLive : ∀ g, g ∈ r.genes ↔ g ∈ L.genes
+  regionsEq : r.regions = L.regions
+  protosEq : r.protos = L.protos
+  candsEq : r.cands = L.cands
+  subsEq : r.subs = L.subs
+  liveEver : ∀ a ∈ registered r, a ∈ ever
+  sorted : Sorted r.genes
+  ok : GenesOK r.genes
+  ids : r.genes.Pairwise fun a b => a.id ≠ b.id
+  byName : ∀ x, x ∈ r.byName ↔ ∃ g ∈ r.genes, x = (g.id, g)
+  byLoc : ∀ l, l ∈ r.byLoc ↔ ∃ g ∈ r.genes, g.loc = l
+  areasOK : ∀ a ∈ ever, AreaOK a
+  kindsR : ∀ a ∈ r.regions, a.kind = .region
+  kindsO : ∀ a ∈ r.protos ++ r.cands ++ r.subs, a.kind ≠ .region
+  disjoint : r.regions.Pairwise fun x y => overlapsWith y.loc x.loc = false
+  membersSound : ∀ x ∈ r.members, ∃ g ∈ r.genes, ∃ d, Linked ever g d ∧ x = (d.id, g.id)
+  membersComplete : ∀ g ∈ r.genes, ∀ d, Linked (registered r) g d → (d.id, g.id) ∈ r.members
+  sectionsSound : ∀ x ∈ r.sections, ∃ g ∈ r.genes, ∃ d s, LinkedS ever g d s ∧ x = ((d.id, s), g.id)
+  sectionsComplete : ∀ g ∈ r.genes, ∀ d s, LinkedS (registered r) g d s → ((d.id, s), g.id) ∈ r.sections
+  cover : ∀ aid gid, (aid, gid) ∈ r.members ↔ ∃ s, ((aid, s), gid) ∈ r.sections
+  defsSound : ∀ x ∈ r.defs, ∃ g ∈ r.genes, ∃ d, Linked ever g d ∧ defines g d = true ∧ x = (d.id, g.id)
+  defsComplete : ∀ g ∈ r.genes, ∀ d, Linked (registered r) g d → defines g d = true → (d.id, g.id) ∈ r.defs
+  regionKeys : ∀ x ∈ r.regionOf, ∃ g ∈ r.genes, g.id = x.1
+  regionPtr : ∀ g ∈ r.genes,
+    (∀ a ∈ r.regions, containedBy g.loc a.loc = true → r.regionOfGene g.id = some a.id) ∧
+    ((∀ a ∈ r.regions, containedBy g.loc a.loc = false) → r.regionOfGene g.id = none)
+
+/-- the caches: whatever is marked clean holds the current value -/
+structure InvCache (r : Rec) : Prop where
+  cds : r.cdsCacheDirty = false → r.cdsCache = r.genes
+  slot : ∀ x ∈ r.slotClean, ((r.slotVal.find? fun y => y.1 == x).map (·.2)) = some (r.section x.1 x.2)
+  tuple : ∀ aid ∈ r.clean, ((r.tupleVal.find? fun y => y.1 == aid).map (·.2))
+    = some [r.section aid .pre, r.section aid .cross, r.section aid .post]
+
+structure Inv (L : Live) (ever : List AreaT) (r : Rec) : Prop where
+  core : InvCore L ever r
+  cache : InvCache r
+
+theorem Inv.init (len : Int) : Inv {} [] { len := len } := by
   constructor
-  · intro x; rw [hgenes, h.genesSeen]; simp
-  · intro a; rw [hreg, h.areasSeen]; simp
-  · intro a; rw [eff.regions]; simp only []; rw [h.regionsSeen]; simp
-  · rw [eff.genes]; exact insert_sorted h.sorted g
+  · constructor <;> simp [registered, Sorted, GenesOK, Linked, LinkedS, Live.genes, Live.regions]
+  · constructor <;> simp
+
+/-- every gene of a collection sits in one of its sections, and only its genes do -/
+theorem Eff2.cover {P Q : List (Gene × AreaT × Section)} {r r' : Rec} (h : Eff2 P Q r r')
+    (hc : ∀ aid gid, (aid, gid) ∈ r.members ↔ ∃ s, ((aid, s), gid) ∈ r.sections) :
+    ∀ aid gid, (aid, gid) ∈ r'.members ↔ ∃ s, ((aid, s), gid) ∈ r'.sections := by
+  intro aid gid
+  rw [h.members]
+  simp only [h.sections, hc]
+  constructor
+  · rintro (⟨s, hs⟩ | ⟨t, ht, e⟩)
+    · exact ⟨s, Or.inl hs⟩
+    · injection e with e1 e2
+      exact ⟨t.2.2, Or.inr ⟨t, ht, by rw [e1, e2]⟩⟩
+  · rintro ⟨s, hs | ⟨t, ht, e⟩⟩
+    · exact Or.inl ⟨s, hs⟩
+    · injection e with e1 e2
+      injection e1 with e1 _
+      exact Or.inr ⟨t, ht, by rw [e1, e2]⟩
+
+/-- adding entries never invalidates a clean cache: clean ones were not touched -/
+theorem Eff2.cache {P Q : List (Gene × AreaT × Section)} {r r' : Rec} (h : Eff2 P Q r r') (c : InvCache r) : InvCache r' := by
+  constructor
+  · rw [h.cdsCacheDirty, h.cdsCache, h.genes]; exact c.cds
   · intro x hx
-    rcases (hgenes x).1 hx with hx | rfl
-    · exact h.ok x hx
-    · exact hg
-  · rw [eff.genes]; exact pairwise_insert (fun f => !locLt g.loc f.loc) g h.ids hidne
-  · rw [hreg]; exact h.areasOK
-  · rw [eff.regions]; exact h.disjoint
-  · intro x
-    rw [eff.members, hreg]
-    simp only [h.members, hgenes, List.mem_map, registered] at *
-    constructor
-    · rintro (⟨g', hg', d, hl, rfl⟩ | ⟨gd, ⟨d, hd, rfl⟩, rfl⟩)
-      · exact ⟨g', Or.inl hg', d, hl, rfl⟩
-      · exact ⟨g, Or.inr rfl, d, (hlink d).1 hd, rfl⟩
-    · rintro ⟨g', hg' | rfl, d, hl, rfl⟩
-      · exact Or.inl ⟨g', hg', d, hl, rfl⟩
-      · exact Or.inr ⟨(g', d), ⟨d, (hlink d).2 hl, rfl⟩, rfl⟩
-  · intro x
-    rw [eff.defs, hreg]
-    simp only [h.defs, hgenes, List.mem_map, registered] at *
-    constructor
-    · rintro (⟨g', hg', d, hl, hdf, rfl⟩ | ⟨gd, ⟨d, hd, rfl⟩, hdf, rfl⟩)
-      · exact ⟨g', Or.inl hg', d, hl, hdf, rfl⟩
-      · exact ⟨g, Or.inr rfl, d, (hlink d).1 hd, hdf, rfl⟩
-    · rintro ⟨g', hg' | rfl, d, hl, hdf, rfl⟩
-      · exact Or.inl ⟨g', hg', d, hl, hdf, rfl⟩
-      · exact Or.inr ⟨(g', d), ⟨d, (hlink d).2 hl, rfl⟩, hdf, rfl⟩
-  · intro x
-    rw [eff.regionOf, hreg]
-    simp only [h.regionOf, hgenes, List.mem_map, registered] at *
-    constructor
-    · rintro (⟨g', hg', d, hl, hdf, rfl⟩ | ⟨gd, ⟨d, hd, rfl⟩, hdf, rfl⟩)
-      · exact ⟨g', Or.inl hg', d, hl, hdf, rfl⟩
-      · exact ⟨g, Or.inr rfl, d, (hlink d).1 hd, hdf, rfl⟩
-    · rintro ⟨g', hg' | rfl, d, hl, hdf, rfl⟩
-      · exact Or.inl ⟨g', hg', d, hl, hdf, rfl⟩
-      · exact Or.inr ⟨(g', d), ⟨d, (hlink d).2 hl, rfl⟩, hdf, rfl⟩
-
-/-! ### adding an area -/
-
-/-- the record right after the collection has been put into its list -/
-def reg (r : Rec) (a : AreaT) : Rec :=
-  match a.kind with
-  | .proto => { r with protos := r.protos ++ [a] }
-  | .cand => { r with cands := r.cands ++ [a] }
-  | .sub => { r with subs := r.subs ++ [a] }
-  | .region => { r with regions := r.regions ++ [a] }
-
-theorem reg_frame (r : Rec) (a : AreaT) :
-    (reg r a).len = r.len ∧ (reg r a).genes = r.genes ∧ (reg r a).members = r.members ∧ (reg r a).defs = r.defs
-    ∧ (reg r a).regionOf = r.regionOf
-    ∧ (∀ x, x ∈ registered (reg r a) ↔ x ∈ registered r ∨ x = a)
-    ∧ (reg r a).regions = (if a.kind = .region then r.regions ++ [a] else r.regions) := by
-  unfold reg
-  cases a.kind <;> simp [registered] <;> grind
-
-theorem addArea_ok {r r' : Rec} {a : AreaT} (h : addArea r a = .ok r') :
-    (a.kind = .region → ∀ x ∈ r.regions, overlapsWith a.loc x.loc = false) ∧ addFound (reg r a) a = .ok r' := by
-  unfold addArea at h
-  by_cases h1 : a.loc.start < 0
-  · simp [h1, throw, throwThe, MonadExceptOf.throw] at h
-  · simp only [h1, if_false] at h
-    by_cases h2 : a.loc.end > r.len
-    · simp [h2, throw, throwThe, MonadExceptOf.throw] at h
-    · simp only [h2, if_false] at h
-      unfold reg
-      cases hk : a.kind with
-      | proto => simp only [hk] at h; exact ⟨by simp, h⟩
-      | cand => simp only [hk] at h; exact ⟨by simp, h⟩
-      | sub => simp only [hk] at h; exact ⟨by simp, h⟩
-      | region =>
-        simp only [hk] at h
-        cases h3 : (r.regions.any fun x => overlapsWith a.loc x.loc) with
-        | true => simp [h3, throw, throwThe, MonadExceptOf.throw] at h
-        | false =>
-          simp only [h3, Bool.false_eq_true, if_false] at h
-          refine ⟨?_, h⟩
-          intro _ x hx
-          cases ho : overlapsWith a.loc x.loc
-          · rfl
-          · have : (r.regions.any fun x => overlapsWith a.loc x.loc) = true := by
-              rw [List.any_eq_true]; exact ⟨x, hx, ho⟩
-            rw [h3] at this; exact absurd this (by simp)
-
-theorem Linked.or {areas : List AreaT} {areas' : List AreaT} {a : AreaT}
-    (h : ∀ x, x ∈ areas' ↔ x ∈ areas ∨ x = a) (g : Gene) (d : AreaT) :
-    Linked areas' g d ↔ Linked areas g d ∨ (containedBy g.loc a.loc = true ∧ d ∈ downNodes g a) := by
-  simp only [Linked, h]
-  constructor
-  · rintro ⟨x, hx | rfl, hc, hd⟩
-    · exact Or.inl ⟨x, hx, hc, hd⟩
-    · exact Or.inr ⟨hc, hd⟩
-  · rintro (⟨x, hx, hc, hd⟩ | ⟨hc, hd⟩)
-    · exact ⟨x, Or.inl hx, hc, hd⟩
-    · exact ⟨a, Or.inr rfl, hc, hd⟩
-
-theorem Inv.addArea {seen : List Op} {r r' : Rec} (h : Inv seen r) (a : AreaT) (ha : QueryOK a.loc)
-    (hstep : addArea r a = .ok r') : Inv (seen ++ [.area a]) r' := by
-  obtain ⟨hdis, hfound⟩ := addArea_ok hstep
-  obtain ⟨f1, f2, f3, f4, f5, f6, f7⟩ := reg_frame r a
-  -- what the lookup finds
-  have hL : ∀ g, g ∈ within r.genes a.loc false ↔ g ∈ r.genes ∧ containedBy g.loc a.loc = true := by
-    intro g
-    rw [mem_within h.sorted h.ok a.loc false ha]
-    constructor
-    · rintro ⟨hg, hk⟩
-      have hle : ∀ p ∈ g.loc.parts, p.lo ≤ p.hi := fun p hp => by have := ((h.ok g hg).2.1 p hp).2; omega
-      exact ⟨hg, by rw [containedBy_eq_spec hle]; simpa [specKeeps] using hk⟩
-    · rintro ⟨hg, hk⟩
-      have hle : ∀ p ∈ g.loc.parts, p.lo ≤ p.hi := fun p hp => by have := ((h.ok g hg).2.1 p hp).2; omega
-      exact ⟨hg, by rw [containedBy_eq_spec hle] at hk; simpa [specKeeps] using hk⟩
-  obtain ⟨r'', hrun, eff⟩ := addAll_eff a (within r.genes a.loc false) (reg r a) (fun g hg => ((hL g).1 hg).2)
-  have : r'' = r' := by
-    unfold addFound at hfound
-    rw [f2, hrun] at hfound
-    injection hfound
-  subst this
-  have hreg : ∀ x, x ∈ registered r'' ↔ x ∈ registered r ∨ x = a := by
-    intro x
-    have : registered r'' = registered (reg r a) := by
-      simp only [registered, eff.regions, eff.protos, eff.cands, eff.subs]
-    rw [this, f6]
-  have hlinked := fun g d => Linked.or (areas := registered r) hreg g d
-  have hP : ∀ gd : Gene × AreaT, gd ∈ ((within r.genes a.loc false).flatMap fun g => (downNodes g a).map fun d => (g, d))
-      ↔ (gd.1 ∈ r.genes ∧ containedBy gd.1.loc a.loc = true ∧ gd.2 ∈ downNodes gd.1 a) := by
-    intro gd
-    simp only [List.mem_flatMap, List.mem_map, hL]
-    constructor
-    · rintro ⟨g, ⟨hg, hc⟩, d, hd, rfl⟩; exact ⟨hg, hc, hd⟩
-    · rintro ⟨hg, hc, hd⟩; exact ⟨gd.1, ⟨hg, hc⟩, gd.2, hd, rfl⟩
-  constructor
-  · intro g; rw [eff.genes, f2, h.genesSeen]; simp
-  · intro x; rw [hreg, h.areasSeen]; simp <;> grind
-  · intro x
-    rw [eff.regions, f7]
-    by_cases hk : a.kind = .region
-    · simp only [hk, if_true, List.mem_append, List.mem_singleton, h.regionsSeen]
-      simp <;> grind
-    · simp only [hk, if_false, h.regionsSeen]
-      simp <;> grind
-  · rw [eff.genes, f2]; exact h.sorted
-  · rw [eff.genes, f2]; exact h.ok
-  · rw [eff.genes, f2]; exact h.ids
-  · intro x hx
-    rcases (hreg x).1 hx with hx | rfl
-    · exact h.areasOK x hx
-    · exact ha
-  · rw [eff.regions, f7]
-    by_cases hk : a.kind = .region
-    · simp only [hk, if_true]
-      rw [List.pairwise_append]
-      refine ⟨h.disjoint, by simp, ?_⟩
-      intro x hx y hy
-      simp only [List.mem_singleton] at hy
-      subst hy
-      exact hdis hk x hx
-    · simp only [hk, if_false]; exact h.disjoint
-  · intro x
-    rw [eff.members, f3, eff.genes, f2, h.members]
-    simp only [hlinked, hP]
-    constructor
-    · rintro (⟨g, hg, d, hl, rfl⟩ | ⟨gd, ⟨hg, hc, hd⟩, rfl⟩)
-      · exact ⟨g, hg, d, Or.inl hl, rfl⟩
-      · exact ⟨gd.1, hg, gd.2, Or.inr ⟨hc, hd⟩, rfl⟩
-    · rintro ⟨g, hg, d, hl | ⟨hc, hd⟩, rfl⟩
-      · exact Or.inl ⟨g, hg, d, hl, rfl⟩
-      · exact Or.inr ⟨(g, d), ⟨hg, hc, hd⟩, rfl⟩
-  · intro x
-    rw [eff.defs, f4, eff.genes, f2, h.defs]
-    simp only [hlinked, hP]
-    constructor
-    · rintro (⟨g, hg, d, hl, hdf, rfl⟩ | ⟨gd, ⟨hg, hc, hd⟩, hdf, rfl⟩)
-      · exact ⟨g, hg, d, Or.inl hl, hdf, rfl⟩
-      · exact ⟨gd.1, hg, gd.2, Or.inr ⟨hc, hd⟩, hdf, rfl⟩
-    · rintro ⟨g, hg, d, hl | ⟨hc, hd⟩, hdf, rfl⟩
-      · exact Or.inl ⟨g, hg, d, hl, hdf, rfl⟩
-      · exact Or.inr ⟨(g, d), ⟨hg, hc, hd⟩, hdf, rfl⟩
-  · intro x
-    rw [eff.regionOf, f5, eff.genes, f2, h.regionOf]
-    simp only [hlinked, hP]
-    constructor
-    · rintro (⟨g, hg, d, hl, hdf, rfl⟩ | ⟨gd, ⟨hg, hc, hd⟩, hdf, rfl⟩)
-      · exact ⟨g, hg, d, Or.inl hl, hdf, rfl⟩
-      · exact ⟨gd.1, hg, gd.2, Or.inr ⟨hc, hd⟩, hdf, rfl⟩
-    · rintro ⟨g, hg, d, hl | ⟨hc, hd⟩, hdf, rfl⟩
-      · exact Or.inl ⟨g, hg, d, hl, hdf, rfl⟩
-      · exact Or.inr ⟨(g, d), ⟨hg, hc, hd⟩, hdf, rfl⟩
-
-/-! ### whole histories -/
-
-theorem Inv.step {seen : List Op} {r r' : Rec} (h : Inv seen r) (op : Op) (hop : OpOK op)
-    (hstep : step r op = .ok r') : Inv (seen ++ [op]) r' := by
-  cases op with
-  | cds g => exact h.addCds g hop hstep
-  | area a => exact h.addArea a hop hstep
-
-theorem foldlM_inv : ∀ (ops seen : List Op) (r0 r : Rec), Inv seen r0 → (∀ op ∈ ops, OpOK op) →
-    ops.foldlM step r0 = .ok r → Inv (seen ++ ops) r
-  | [], seen, r0, r, h, _, hrun => by
-    simp only [List.foldlM_nil, pure, Except.pure] at hrun
-    injection hrun with hrun
-    subst hrun
-    simpa using h
-  | op :: ops, seen, r0, r, h, hok, hrun => by
-    simp only [List.foldlM_cons, bind, Except.bind] at hrun
-    cases hs : step r0 op with
-    | error e => rw [hs] at hrun; cases hrun
-    | ok r1 =>
-      rw [hs] at hrun
-      have h1 := h.step op (hok op (by simp)) hs
-      have := foldlM_inv ops (seen ++ [op]) r1 r h1 (fun o ho => hok o (by simp [ho])) hrun
-      simpa using this
-
-/-- every successful history ends in a state satisfying the invariant -/
-theorem run_inv {len : Int} {ops : List Op} {r : Rec} (hok : ∀ op ∈ ops, OpOK op) (hrun : run len ops = .ok r) :
-    Inv ops r := by
-  have := foldlM_inv ops [] { len := len } r (Inv.init len) hok hrun
-  simpa using this
+    obtain ⟨h1, h2⟩ := (h.slotClean x).1 hx
+    rw [h.slotVal, c.slot x h1, h.sectionSame x.1 x.2 (fun t ht => h2 t ht)]
+  · intro aid ha
+    obtain ⟨h1, h2⟩ := (h.clean aid).1 ha
+    have e : ∀ s, r'.section aid s = r.section aid s := fun s =>
+      h.sectionSame aid s (fun t ht e => h2 t ht (by injection e))
+    rw [h.tupleVal, c.tuple aid h1, e, e, e]
 
 end ASV.Lookup
